@@ -113,6 +113,9 @@ pub struct Globals {
     /// aborts issued by running tasks: noticed when the command is next polled, i.e. once the
     /// tasks that are running now have come to rest
     pub pending_task_aborts: Vec<u64>,
+    /// this settle: tasks that resumed from a wait on something inside the program / that aborted a command
+    pub internal_resumes: BTreeSet<u64>,
+    pub task_aborters: BTreeSet<u64>,
     pub local_rounds: u64,
     /// left operand of an `and` -> the combined command it is part of
     pub inline_parent: BTreeMap<u64, u64>,
@@ -195,6 +198,18 @@ impl Globals {
         if let Some(r) = self.reqs.get_mut(&key) {
             r.rx_alive = false;
             r.queue.clear();
+        }
+    }
+
+    /// A task aborting a command and another task resuming from a self-wake, a join or a channel in
+    /// the same settle: what the resumed task still gets to do depends on the order in which the
+    /// executor polls the two (crux: first come first served, and the first task of an aborted
+    /// command is not polled again at all) - not something the properties fix.
+    fn check_abort_vs_internal_resume(&mut self) {
+        // (also when it is the aborting task itself that was woken from inside: it then runs in a later
+        // round of the pass, and what the other tasks did before that is a matter of queue order)
+        if !self.task_aborters.is_empty() && !self.internal_resumes.is_empty() {
+            self.ambiguous = Some("task-issued abort and an internally woken task in one settle".into());
         }
     }
 
@@ -662,6 +677,22 @@ impl Seq {
                     g.emit_req((leaf.site, self.acc), leaf.op, Arity::Never, outs, self.legacy);
                     frame.pc += 1;
                 }
+                Stmt::Burst { n, tag } => {
+                    for _ in 0..n {
+                        outs.push(Out::Event(EvDesc {
+                            tag,
+                            val: self.acc,
+                            trace: vec![],
+                            em_label: self.em_label,
+                            em_start: self.em_start,
+                            seq: self.seq,
+                            cont: None,
+                        }));
+                        self.seq += 1;
+                    }
+                    frame.pc += 1;
+                    g.progress = true;
+                }
                 Stmt::Emit { tag, cont } => {
                     outs.push(Out::Event(EvDesc {
                         tag,
@@ -735,6 +766,10 @@ impl Seq {
                         if g.live_tasks.contains(uid) {
                             frame.blk = Some(Blk::Join(*uid));
                             return false;
+                        }
+                        if frame.blk.is_some() {
+                            g.internal_resumes.insert(g.cur_owner);
+                            g.check_abort_vs_internal_resume();
                         }
                         frame.blk = None;
                         frame.pc += 1;
@@ -840,6 +875,10 @@ impl Seq {
                         Some(Blk::Yield(k)) => *k,
                         _ => n,
                     };
+                    if frame.blk.is_some() {
+                        g.internal_resumes.insert(g.cur_owner);
+                        g.check_abort_vs_internal_resume();
+                    }
                     if left == 0 {
                         frame.blk = None;
                         frame.pc += 1;
@@ -929,16 +968,25 @@ impl Seq {
                     None => frame.pc += 1,
                     Some(inst) => {
                         let ch = g.chans.get_mut(&inst).expect("channel instance");
+                        let resumed = frame.blk.is_some();
                         if let Some(v) = ch.queue.pop_front() {
                             self.acc = v;
                             frame.blk = None;
                             frame.pc += 1;
                             g.progress = true;
+                            if resumed {
+                                g.internal_resumes.insert(g.cur_owner);
+                                g.check_abort_vs_internal_resume();
+                            }
                         } else if !ch.tx_alive {
                             self.acc = super::ast::chan_closed(self.acc);
                             frame.blk = None;
                             frame.pc += 1;
                             g.progress = true;
+                            if resumed {
+                                g.internal_resumes.insert(g.cur_owner);
+                                g.check_abort_vs_internal_resume();
+                            }
                         } else {
                             frame.blk = Some(Blk::Recv(inst));
                             return false;
@@ -952,6 +1000,8 @@ impl Seq {
                         if g.aborted_cmds.insert(uid) {
                             g.cmds_aborted_this_settle.insert(uid);
                             g.pending_task_aborts.push(uid);
+                            g.task_aborters.insert(g.cur_owner);
+                            g.check_abort_vs_internal_resume();
                         }
                     }
                     frame.pc += 1;
@@ -1488,17 +1538,28 @@ impl CmdSt {
                 loop {
                     g.progress = false;
                     all = true;
+                    let mut cut = false;
                     for x in xs.iter_mut() {
                         if !x.run(g, outs, false) {
                             all = false;
                         }
+                        if g.aborted_here_or_inline(my_uid) {
+                            // aborted from inside: no other task of this command is polled again
+                            // (the parts are hosted by tasks of this command)
+                            all = false;
+                            cut = true;
+                            break;
+                        }
+                    }
+                    if cut {
+                        any = true;
+                        break;
                     }
                     if !g.progress || g.ambiguous.is_some() {
                         break;
                     }
                     any = true;
                     if g.aborted_here_or_inline(my_uid) {
-                        // aborted by one of its own tasks: they stop at their next await point
                         break;
                     }
                     if inline_of.is_some() {
@@ -1555,7 +1616,12 @@ impl CmdSt {
                 loop {
                     g.progress = false;
                     let mut i = 0;
-                    while i < ts.len() {
+                    let mut cut = false;
+                    // tasks spawned during a round get their first poll in the next one: after the
+                    // tasks that were already there (and, in a combined command, after its other parts)
+                    let mut in_this_round = ts.len();
+                    while in_this_round > 0 && i < ts.len() {
+                        in_this_round -= 1;
                         let mut spawned = vec![];
                         let r = ts[i].run(g, outs, &mut spawned, true);
                         match r {
@@ -1565,14 +1631,26 @@ impl CmdSt {
                             }
                             TaskRun::Keep => i += 1,
                         }
+                        if !spawned.is_empty() {
+                            g.progress = true;
+                        }
                         ts.extend(spawned);
+                        if g.aborted_here_or_inline(my_uid) {
+                            // aborted by one of its own tasks: that task ran on to its next await point,
+                            // no other task of the command is polled again (not even one just spawned)
+                            cut = true;
+                            break;
+                        }
+                    }
+                    if cut {
+                        any = true;
+                        break;
                     }
                     if !g.progress || g.ambiguous.is_some() {
                         break;
                     }
                     any = true;
                     if g.aborted_here_or_inline(my_uid) {
-                        // aborted by one of its own tasks: they stop at their next await point
                         break;
                     }
                     if inline_of.is_some() {
@@ -1695,6 +1773,8 @@ impl Model {
                 aborted_cmds: BTreeSet::new(),
                 cmds_aborted_this_settle: BTreeSet::new(),
                 pending_task_aborts: vec![],
+                internal_resumes: BTreeSet::new(),
+                task_aborters: BTreeSet::new(),
                 local_rounds: 0,
                 inline_parent: BTreeMap::new(),
                 chans: BTreeMap::new(),
@@ -1844,6 +1924,8 @@ impl Model {
         g.reap = reap.clone();
         g.optional_zombies.clear();
         g.ran_this_settle.clear();
+        g.internal_resumes.clear();
+        g.task_aborters.clear();
         g.local_rounds = 0;
         let mut effects = vec![];
         let mut new_log = std::mem::take(&mut self.pending_new_log);
